@@ -154,9 +154,10 @@ def fresh_replay(pid, rec):
     return None
 
 
-def run_conc(fn, cfg, values):
-    """run the harness body concretely on the real code with scripted inputs"""
+def run_conc(fn, cfg, values, exact=False):
+    """run the harness body concretely on the real code with scripted inputs (exact: reals are exact rationals, not floats)"""
     ctx = Ctx(mode="conc", values=values)
+    ctx.exact_reals = exact
     prev = Ctx.current
     Ctx.current = ctx
     status = "done"
@@ -262,22 +263,34 @@ def run_path(fn, cfg, prefix, draw_budget, agg, cfg_name, validate):
             m = None
         if m is not None:
             vals = ctx.model_values(m)
-            try:
-                cctx, cst = run_conc(fn, cfg, vals)
+            def attempt(exact):
+                cctx, cst = run_conc(fn, cfg, vals, exact=exact)
                 sym_obs = [(n, _eval_obs(m, v)) for n, v in ctx.observations]
                 con_obs = [(n, _norm_obs(v)) for n, v in cctx.observations]
-                bad = None
                 if cst != "done":
-                    bad = f"concrete run ended with {cst}"
-                elif cctx.failed_labels and all(s in ("unsat", "concrete", "witness") for _, s, _ in ctx.obligations):
-                    bad = f"concrete run failed {cctx.failed_labels[:3]} although all obligations were discharged"
-                elif len(sym_obs) != len(con_obs):
-                    bad = f"observation count differs {len(sym_obs)} vs {len(con_obs)}"
-                else:
-                    for (n1, a), (n2, b) in zip(sym_obs, con_obs):
-                        if n1 != n2 or not _obs_equal(_norm_obs(a), b):
-                            bad = f"observation {n1}: symbolic {a!r} vs concrete {b!r}"
-                            break
+                    return f"concrete run ended with {cst}"
+                if cctx.failed_labels and all(s in ("unsat", "concrete", "witness") for _, s, _ in ctx.obligations):
+                    return f"concrete run failed {cctx.failed_labels[:3]} although all obligations were discharged"
+                if len(sym_obs) != len(con_obs):
+                    return f"observation count differs {len(sym_obs)} vs {len(con_obs)}"
+                for (n1, a), (n2, b) in zip(sym_obs, con_obs):
+                    if n1 != n2 or not _obs_equal(_norm_obs(a), b):
+                        return f"observation {n1}: symbolic {a!r} vs concrete {b!r}"
+                return None
+
+            try:
+                bad = attempt(False)
+                if bad:
+                    # the symbolic run reads floats as exact rationals: a model on a comparison boundary can take the other branch in
+                    # floating point.  Second attempt with exact rationals; only if that disagrees too is the translator at fault.
+                    try:
+                        bad2 = attempt(True)
+                    except Exception:  # noqa
+                        bad2 = "exception in the exact re-run"
+                    if bad2 is None:
+                        bad = None
+                        k = "witness validated with exact rationals after a floating-point mismatch (model on a comparison boundary)"
+                        agg.notes[k] = agg.notes.get(k, 0) + 1
                 if bad:
                     if len(agg.witness_bad) < 5:
                         agg.witness_bad.append({"config": cfg_name, "values": vals, "why": bad})
